@@ -9,7 +9,14 @@ import (
 // Rand is a splitmix64 PRNG; every random choice of a run derives from one seed.
 type Rand struct{ s uint64 }
 
-func NewRand(seed uint64) *Rand { return &Rand{s: seed*0x9E3779B97F4A7C15 + 0x1234567} }
+func NewRand(seed uint64) *Rand {
+	// hash the seed once so that consecutive seeds give unrelated streams
+	z := seed + 0x9E3779B97F4A7C15
+	z = (z ^ (z >> 30)) * 0xBF58476D1CE4E5B9
+	z = (z ^ (z >> 27)) * 0x94D049BB133111EB
+	z = z ^ (z >> 31)
+	return &Rand{s: z ^ 0x5851F42D4C957F2D}
+}
 func (r *Rand) Uint64() uint64 {
 	r.s += 0x9E3779B97F4A7C15
 	z := r.s
